@@ -459,6 +459,9 @@ func (e *Env) evalCall(x *SExpr) Value {
 	case "nulfree":
 		need(1)
 		return specBool(UF("nulfree", SBool, arg(0).L[0]))
+	case "bufarr":
+		need(1)
+		return specInt(bufArr(identOf(arg(0))))
 	case "viewarr":
 		need(1)
 		return specInt(UF("sview.arr", SInt, arg(0).L[0]))
